@@ -32,3 +32,24 @@ Example C09_example :    (* leap 3, stale, PHC failure in grace, brief outage: a
     [ MReport 0 0 0 3 itv (Some (0, 0)) 0 (mkts 10 5); MReport 0 0 0 1 itv (Some (40, 0)) 0 (mkts 11 5);
       MMissing true; MMissing false ] = Some (u, cs) /\ map c_status cs = [Unknown; Unknown; Unknown; Unknown].
 Proof. eexists _, _. vm_compute. split; reflexivity. Qed.
+
+(* A restarted daemon: every instance starts unmeasured, whatever the instance before it published
+   and left in the segment (a trusted record included): until ITS first synchronised report all of
+   its records are Unknown. *)
+Theorem C09_every_instance_starts_unmeasured : forall pre d ms post cs,
+  lives (pre ++ (d, ms) :: post) = Some cs -> last_sync (rev ms) = None ->
+  exists a b c, cs = a ++ b ++ c /\ lives pre = Some a /\ length b = length ms /\
+                forall x, In x b -> c_status x = Unknown.
+Proof.
+  intros pre d ms post cs H E. destruct (lives_life pre d ms post cs H) as (a & c & Ha & _ & -> & L).
+  exists a, (spec_run d [] ms), c. repeat split; auto.
+  intros x Hx. apply (spec_run_unknown d ms []); [rewrite app_nil_r; exact E | exact Hx].
+Qed.
+
+Example C09_restart_example :   (* first instance synchronised; the second hears leap 3, then nothing: Unknown twice *)
+  let itv := 4 * 33554432 + 8388608 in
+  lives [ (1000, [MReport 0 0 0 0 itv (Some (0, 0)) 0 (mkts 10 5)]);
+          (1000, [MReport 0 0 0 3 itv (Some (0, 0)) 0 (mkts 20 5); MMissing true]) ] <> None /\
+  option_map (map c_status) (lives [ (1000, [MReport 0 0 0 0 itv (Some (0, 0)) 0 (mkts 10 5)]);
+          (1000, [MReport 0 0 0 3 itv (Some (0, 0)) 0 (mkts 20 5); MMissing true]) ]) = Some [Synchronized; Unknown; Unknown].
+Proof. vm_compute. split; [discriminate | reflexivity]. Qed.
